@@ -1024,6 +1024,32 @@ func linesC08(lines []string, rep *Reporter) {
 			if read, err := strconv.Atoi(parts[len(parts)-1]); err == nil && read > len(data) {
 				rep.Viol("Unpack accepted a field announcing more bytes than available", l, fmt.Sprintf("read %d of %d", read, len(data)))
 			}
+			// a primitive with a length prefix: the value Unpack returns has at most the announced
+			// number of units (exactly that many before the pad characters were stripped)
+			if specT, ok := impl.ParseTree(t[1]); ok && specT.Name == "p" && len(parts) == 3 {
+				pref, enc := specT.Kids[3].Name, specT.Kids[2].Name
+				max, _ := strconv.Atoi(specT.Kids[1].Name)
+				if pr := impl.Prefixer(pref); pr != nil && pref != "none" && !strings.HasSuffix(pref, ".F") && enc != "ebcdic1047" && enc != "hexToBytes" {
+					if n, _, err := pr.DecodeLength(1<<40, data); err == nil {
+						if vt, ok := impl.ParseTree(parts[1]); ok && len(vt.Kids) == 1 {
+							units := -1
+							if b, ok := impl.UnHex(vt.Kids[0].Name); ok {
+								switch vt.Name {
+								case "s", "b":
+									units = len(b)
+								case "h":
+									units = len(b) / 2
+								}
+							}
+							if units > n {
+								rep.Viol("Unpack returned a value longer than the length its prefix announces", l, fmt.Sprintf("announced %d, value of %d units: %s", n, units, parts[1]))
+							} else if n > max && !(pref == "ber" && max == 0) {
+								rep.Viol("Unpack accepted a field whose announced length exceeds the declared maximum", l, fmt.Sprintf("announced %d > max %d", n, max))
+							}
+						}
+					}
+				}
+			}
 		}
 		if t[0] == "F" && t[2] == "pack" && strings.HasPrefix(res, "ok ") {
 			// packed although the model refuses: check the declared bound directly
